@@ -117,7 +117,7 @@ def handlePure : List String → Option String
       | .none => none
     let hs := if awaitOk then (go 40 h2 []).reverse else []
     pure (if hs.isEmpty then "none" else ",".intercalate (hs.map toString))
-  | ["admit", allowNew, btcOn, lbtcOn, minMsat, acceptAll, allowlisted, suspicious, wAsset, wNet, rateBtc, rateLbtc,
+  | ["admission", allowNew, btcOn, lbtcOn, minMsat, acceptAll, allowlisted, suspicious, wAsset, wNet, rateBtc, rateLbtc,
      spendable, probeOk, busy, balance, fee, swapOut, version, asset, network, scid, pub, amount, limit, receivable] => do
     let scidS ← unhexStr scid
     let pubS ← unhexStr pub
@@ -129,7 +129,7 @@ def handlePure : List String → Option String
       (← nat? balance), (← nat? fee)⟩
     let req : Request := ⟨(← bool? swapOut), (← nat? version), assetS, netS, scidValid scidS, hexLen pubS == some 33,
       hexLen assetS == some 33, knownNetwork netS, (← nat? amount), (← int? limit)⟩
-    match admit cfg req with
+    match admission cfg req with
     | .agreement p => pure s!"agreement {p}"
     | .cancel reason => pure ("cancel " ++ (if reason == "suspicious" then "not-allowed" else reason))
   | ["scid.cln", s] => do pure (hexStr (clnStyle (← unhexStr s)))
